@@ -17,6 +17,10 @@ impl PanicInfo {
     pub fn norm_msg(&self) -> String {
         normalise(&self.msg)
     }
+    /// did the panic originate in the simulator's own code (not in /repo, std or a dependency)?
+    pub fn is_harness(&self) -> bool {
+        self.msg.starts_with("harness:") || !(self.loc.starts_with("/repo/") || self.loc.contains("/.cargo/") || self.loc.contains("/rustc/") || self.loc.contains("/rustlib/"))
+    }
     pub fn file(&self) -> String {
         self.loc.split(':').next().unwrap_or("").rsplit("/src/").next().unwrap_or("").to_string()
     }
